@@ -162,8 +162,7 @@ def def_IRQueryComponent : TypeDef :=
       ⟨"vertices", .path "BTreeMap" [.path "Vid" [], .path "IRVertex" []]⟩,
       ⟨"edges", .path "BTreeMap" [.path "Eid" [], .path "Arc" [.path "IREdge" []]]⟩,
       ⟨"folds", .path "BTreeMap" [.path "Eid" [], .path "Arc" [.path "IRFold" []]]⟩,
-      ⟨"outputs", .path "BTreeMap" [.path "Arc" [.path "str" []], .path "ContextField" []]⟩,
-      ⟨"output_order", .path "OutputOrder" []⟩] }
+      ⟨"outputs", .path "BTreeMap" [.path "Arc" [.path "str" []], .path "ContextField" []]⟩] }
 
 /-- `IRVertex` struct (ir/mod.rs) -/
 def def_IRVertex : TypeDef :=
@@ -259,12 +258,6 @@ def def_Output : TypeDef :=
       ⟨"name", .path "Arc" [.path "str" []]⟩,
       ⟨"value_type", .path "Type" []⟩,
       ⟨"vid", .path "Vid" []⟩] }
-
-/-- `OutputOrder` struct (ir/mod.rs) -/
-def def_OutputOrder : TypeDef :=
-  { name := "OutputOrder", params := [], kind := "struct", src := "ir/mod.rs",
-    fields := [
-      ⟨"0", .path "RwLock" [.path "Vec" [.path "Arc" [.path "str" []]]]⟩] }
 
 /-- `Recursive` struct (ir/mod.rs) -/
 def def_Recursive : TypeDef :=
@@ -387,7 +380,6 @@ def typeDefs : Defs := [
   def_Modifiers,
   def_Operation,
   def_Output,
-  def_OutputOrder,
   def_Recursive,
   def_Schema,
   def_SerializableContext,
